@@ -58,6 +58,10 @@ func guard(f func() error) (err error) {
 // WithDebug(log.Printf) would); a case sets it from a draw and resets it when done.
 var withDebug bool
 
+// debugHook, when set together with withDebug, runs inside every debug callback
+// (not re-entrantly).
+var debugHook func()
+
 // newConn calls ech.NewConn, converting panics into *panicErr.
 func newConn(ctx context.Context, tr net.Conn, keys []ech.Key) (c *ech.Conn, err error) {
 	err = guard(func() error {
@@ -67,7 +71,16 @@ func newConn(ctx context.Context, tr net.Conn, keys []ech.Key) (c *ech.Conn, err
 			opts = append(opts, ech.WithKeys(keys))
 		}
 		if withDebug {
-			opts = append(opts, ech.WithDebug(func(f string, a ...any) { _ = fmt.Sprintf(f, a...) }))
+			opts = append(opts, ech.WithDebug(func(f string, a ...any) {
+				_ = fmt.Sprintf(f, a...)
+				// a debug callback is application code: it may do anything, e.g. be busy with
+				// another connection of the same server
+				if h := debugHook; h != nil {
+					debugHook = nil
+					h()
+					debugHook = h
+				}
+			}))
 		}
 		c, e = ech.NewConn(ctx, tr, opts...)
 		return e
